@@ -472,9 +472,86 @@ fn run_free_op(line: &str) -> String {
             }))
         }
         "A" => or_panic(guarded(|| run_trace_ast(&toks[1..]))),
+        "HT" | "HL" | "HU" | "HC" | "HP" | "HN" | "HB" | "HE" | "HD" | "HW" => or_panic(guarded(|| run_std_op(&toks))),
         "E6" | "E5" => or_panic(guarded(|| run_sweep_block(toks[0], toks[1].parse().expect("block")))),
         "" => String::new(),
         _ => format!("UNKNOWN-OP {}", toks[0]),
+    }
+}
+
+/// the std / dependency semantics the model writes down by hand, run directly: str::trim, str::lines,
+/// from_utf8, str::cmp, str::parse, char::is_numeric, slice::binary_search_by, leb128, StringTable
+fn run_std_op(toks: &[&str]) -> String {
+    let bytes = |i: usize| unhex(toks[i]);
+    match toks[0] {
+        "HU" => format!("{}", std::str::from_utf8(&bytes(1)).is_ok() as u8),
+        "HT" => match std::str::from_utf8(&bytes(1)) {
+            Ok(s) => hex(s.trim().as_bytes()),
+            Err(_) => "~".into(),
+        },
+        "HL" => match std::str::from_utf8(&bytes(1)) {
+            Ok(s) => s.lines().map(|l| hex(l.as_bytes())).collect::<Vec<_>>().join(","),
+            Err(_) => "~".into(),
+        },
+        "HC" => {
+            let (a, b) = (bytes(1), bytes(2));
+            match (std::str::from_utf8(&a), std::str::from_utf8(&b)) {
+                (Ok(x), Ok(y)) => format!("{:?}", x.cmp(y)),
+                _ => format!("{:?}", a.cmp(&b)),
+            }
+        }
+        "HP" => match std::str::from_utf8(&bytes(1)) {
+            Ok(s) => format!(
+                "{};{}",
+                s.parse::<usize>().map_or("~".into(), |v| v.to_string()),
+                s.parse::<u32>().map_or("~".into(), |v| v.to_string())
+            ),
+            Err(_) => "~;~".into(),
+        },
+        "HN" => bytes(1).iter().map(|b| if (*b as char).is_numeric() { '1' } else { '0' }).collect(),
+        "HB" => {
+            // binary_search_by over a byte list (possibly unsorted) with comparator x.cmp(target)
+            let target = bytes(1).first().copied().unwrap_or(0);
+            let l = bytes(2);
+            match l.binary_search_by(|x| x.cmp(&target)) {
+                Ok(i) => format!("Some({})", i),
+                Err(_) => "None".into(),
+            }
+        }
+        "HE" => {
+            let v: u64 = toks[1].parse().expect("u64");
+            let mut out = Vec::new();
+            leb128::write::unsigned(&mut out, v).expect("leb");
+            hex(&out)
+        }
+        "HD" => {
+            let b = bytes(1);
+            let mut r: &[u8] = &b;
+            match leb128::read::unsigned(&mut r) {
+                Ok(v) => format!("{};{}", v, hex(r)),
+                Err(_) => "~".into(),
+            }
+        }
+        "HW" => {
+            // watto::StringTable: insert the strings, then read every returned offset back
+            let mut t = watto::StringTable::new();
+            let mut offs = Vec::new();
+            for tok in &toks[1..] {
+                let b = unhex(tok);
+                let s = String::from_utf8_lossy(&b).to_string();
+                offs.push(t.insert(&s));
+            }
+            let bytes = t.into_bytes();
+            let reads: Vec<String> = offs
+                .iter()
+                .map(|o| match watto::StringTable::read(&bytes, *o) {
+                    Ok(s) => hex(s.as_bytes()),
+                    Err(_) => "~".into(),
+                })
+                .collect();
+            format!("{};{};{}", offs.iter().map(|o| o.to_string()).collect::<Vec<_>>().join(","), hex(&bytes), reads.join(","))
+        }
+        _ => "UNKNOWN-OP".into(),
     }
 }
 
